@@ -69,3 +69,28 @@ pub fn thrift_corpus(seed: u64, tier: Tier) -> Corpus {
     }
     Corpus { docs, units }
 }
+
+
+// ---------------------------------------------------------------------------------------------
+// protobuf corpus
+
+#[derive(Clone, Debug)]
+pub struct PCorpusDoc {
+    pub key: String,
+    pub doc: crate::pschema::PDoc,
+    pub raw: Option<crate::pschema::RawPDoc>,
+}
+
+#[derive(Clone, Debug)]
+pub struct PCorpus {
+    pub docs: Vec<PCorpusDoc>,
+}
+
+pub fn proto_corpus(seed: u64, tier: Tier) -> PCorpus {
+    let mut docs: Vec<PCorpusDoc> = crate::kitchen::proto_docs().into_iter().enumerate().map(|(i, d)| PCorpusDoc { key: format!("pkit{}", i), doc: d, raw: None }).collect();
+    let n = tier.pick(8, 40) as usize;
+    for (i, (raw, doc)) in sample(&crate::pschema::arb_pdoc(), seed, "proto-corpus", n).into_iter().enumerate() {
+        docs.push(PCorpusDoc { key: format!("pgen{}", i), doc, raw: Some(raw) });
+    }
+    PCorpus { docs }
+}
